@@ -18,7 +18,7 @@ def _sig(c, v):
 
 SPEC = {
     "runners": [{
-        "kind": "coqcases", "harness": "c20", "corr": "Run/CorrC20.v (heap model of errors/validationError.go vs /repo/errors)",
+        "kind": "coqcases", "module": "CorrC20", "harness": "c20", "corr": "Run/CorrC20.v (heap model of errors/validationError.go vs /repo/errors)",
         "rule": "each case = one history on the real code: (reads) a tree of ValidationErrors built through the three public constructors from caller-made maps (possibly nil, empty, shared between nodes; message slices alternately carved out of one backing array with spare capacity), then a sequence of reads (Error, GetFlatErrorMap, GetFlatWarningMap, GetErrorMap, GetWarningMap) applied twice, with a deep snapshot through the getters before and after; or (add) one call of AddErrorToValidation on a pair of arguments (nil, nil pointer, pointer/non-pointer plain error, ValidationError tree, wrappers of any of them, the same object twice) followed by 8 reads of the result between two snapshots. Coq evaluates the monitor (the property on the observations: no panic, flat maps = specified pairs of the snapshot, Error() one line per message, snapshot unchanged, result contains the messages of both arguments) and the model (same construction and operations in the heap model proved correct in Props/C20.v). Generation: corpus = the Findings/VErr.v witnesses; exhaustive = every tree of depth <= 1 made of 7 top shapes x {nil, empty, a, a.b, a+a.b children} x 12 leaf shapes over an alphabet with colliding dotted keys, and every ordered pair of a menu of argument shapes; random = trees of depth <= 4, fan-out <= 3, random arguments. distinct = by (construction, operations, slice mode); non-trivial = a read case whose tree has a message below the root and whose sequence contains a flattening read or Error(), an add case with both arguments non-nil.",
         "sigfn": _sig,
         "timeout": 3000,
